@@ -1,0 +1,228 @@
+//go:build verif
+
+package ttlv
+
+// Contracts for the gocv verifier (see /verif/DESIGN.md). Comment-only; compiled only with -tags verif.
+
+//@ spec padlen(l int) int = (8 - (l & 7)) & 7
+//@ spec padded(l int) int = l + padlen(l)
+//@ spec be32(b []byte, o int) uint32 = uint32(b[o])<<24 | uint32(b[o+1])<<16 | uint32(b[o+2])<<8 | uint32(b[o+3])
+//@ spec be64(b []byte, o int) uint64 = uint64(be32(b, o))<<32 | uint64(be32(b, o+4))
+//@ spec tagOf(b []byte) int = int(b[0])<<16 | int(b[1])<<8 | int(b[2])
+//@ spec lenOf(b []byte) int = int(be32(b, 4))
+//@ spec hdOK(b []byte) bool = len(b) == 0 || (len(b) >= 8 && 8+padded(lenOf(b)) <= len(b) && 1 <= b[3] && b[3] <= 10)
+//@ spec advanced(nb []byte, ob []byte) bool = nb == ob[8+padded(lenOf(ob)):]
+
+//@ func padForLen
+//@   requires 0 <= l && (padSize == 8 || padSize == 1)
+//@   ensures padSize == 8 ==> r0 == padlen(l)
+//@   ensures padSize == 1 ==> r0 == 0
+//@   pure
+
+// ---------------------------------------------------------------------------
+// binary reader
+
+//@ func newTTLVReader
+//@   ensures r1 == nil ==> r0 != nil && r0.buf == buf && hdOK(buf)
+//@   ensures r1 != nil ==> r0 == nil
+//@   pure
+
+//@ func (*ttlvReader).validate
+//@   requires dec != nil
+//@   ensures r0 == nil ==> hdOK(dec.buf)
+//@   pure
+
+//@ func (*ttlvReader).Next
+//@   requires dec != nil && hdOK(dec.buf) && len(dec.buf) > 0
+//@   ensures advanced(dec.buf, old(dec.buf))
+//@   ensures r0 == nil ==> hdOK(dec.buf)
+//@   modifies dec.buf
+
+//@ func (*ttlvReader).value
+//@   requires dec != nil && hdOK(dec.buf)
+//@   ensures len(dec.buf) == 0 ==> r0 == nil
+//@   ensures len(dec.buf) > 0 ==> r0 == dec.buf[8:8+lenOf(dec.buf)]
+//@   pure
+
+//@ func (*ttlvReader).assertType
+//@   requires dec != nil && hdOK(dec.buf)
+//@   ensures r0 == nil ==> len(dec.buf) > 0 && dec.buf[3] == uint8(ty) && tagOf(dec.buf) == tag
+//@   pure
+
+//@ func (*ttlvReader).Integer
+//@   requires dec != nil && hdOK(dec.buf)
+//@   ensures r1 == nil ==> r0 == int32(old(be32(dec.buf, 8))) && advanced(dec.buf, old(dec.buf)) && hdOK(dec.buf)
+//@   modifies dec.buf
+
+//@ func (*ttlvReader).LongInteger
+//@   requires dec != nil && hdOK(dec.buf)
+//@   ensures r1 == nil ==> r0 == int64(old(be64(dec.buf, 8))) && advanced(dec.buf, old(dec.buf)) && hdOK(dec.buf)
+//@   modifies dec.buf
+
+//@ func (*ttlvReader).Enum
+//@   requires dec != nil && hdOK(dec.buf)
+//@   ensures r1 == nil ==> r0 == old(be32(dec.buf, 8)) && advanced(dec.buf, old(dec.buf)) && hdOK(dec.buf)
+//@   modifies dec.buf
+
+//@ func (*ttlvReader).Bool
+//@   requires dec != nil && hdOK(dec.buf)
+//@   ensures r1 == nil ==> r0 == (old(dec.buf[15]) != 0) && advanced(dec.buf, old(dec.buf)) && hdOK(dec.buf)
+//@   modifies dec.buf
+
+//@ func (*ttlvReader).BigInteger
+//@   requires dec != nil && hdOK(dec.buf)
+//@   ensures r1 == nil ==> old(len(dec.buf)) > 0 && old(dec.buf[3]) == 4 && old(tagOf(dec.buf)) == tag
+//@   ensures r1 == nil ==> r0 != nil && advanced(dec.buf, old(dec.buf)) && hdOK(dec.buf)
+//@   modifies dec.buf
+
+//@ func (*ttlvReader).TextString
+//@   requires dec != nil && hdOK(dec.buf)
+//@   ensures r1 == nil ==> bytes_eq(r0, old(dec.buf)[8:8+old(lenOf(dec.buf))]) && advanced(dec.buf, old(dec.buf)) && hdOK(dec.buf)
+//@   modifies dec.buf
+
+//@ func (*ttlvReader).ByteString
+//@   requires dec != nil && hdOK(dec.buf)
+//@   ensures r1 == nil ==> bytes_eq(r0, old(dec.buf)[8:8+old(lenOf(dec.buf))]) && advanced(dec.buf, old(dec.buf)) && hdOK(dec.buf)
+//@   ensures r1 == nil && len(r0) > 0 ==> isnew(r0)
+//@   modifies dec.buf
+
+//@ func (*ttlvReader).DateTime
+//@   requires dec != nil && hdOK(dec.buf)
+//@   ensures r1 == nil ==> unix(r0) == int64(old(be64(dec.buf, 8))) && advanced(dec.buf, old(dec.buf)) && hdOK(dec.buf)
+//@   modifies dec.buf
+
+//@ func (*ttlvReader).Interval
+//@   requires dec != nil && hdOK(dec.buf)
+//@   ensures r1 == nil ==> int64(r0) == int64(old(be32(dec.buf, 8)))*1000000000 && advanced(dec.buf, old(dec.buf)) && hdOK(dec.buf)
+//@   modifies dec.buf
+
+//@ func (*ttlvReader).Bitmask
+//@   requires dec != nil && hdOK(dec.buf)
+//@   ensures r1 == nil ==> r0 == int32(old(be32(dec.buf, 8))) && advanced(dec.buf, old(dec.buf)) && hdOK(dec.buf)
+//@   modifies dec.buf
+
+//@ functype func(ttlv.reader) error
+//@   params r
+//@   requires typeis(r, *ttlvReader) ==> dyn(r, *ttlvReader) != nil && hdOK(dyn(r, *ttlvReader).buf)
+//@   modifies dyn(r, *ttlvReader).buf
+
+//@ func (*ttlvReader).Struct
+//@   requires dec != nil && hdOK(dec.buf) && f != nil
+//@   ensures r0 == nil ==> old(len(dec.buf)) > 0 && old(dec.buf[3]) == 1 && advanced(dec.buf, old(dec.buf)) && hdOK(dec.buf)
+//@   modifies dec.buf
+
+//@ func bytesToBigInt
+//@   requires len(v) > 0
+//@   ensures r0 != nil
+//@   pure
+//@   loop 0 invariant 0 <= i+1 && i < len(v)
+
+//@ func computeNeededBytes
+//@   ensures r0 == ite(len(buf) < 8, 8, 8+padded(lenOf(buf)))
+//@   pure
+
+// ---------------------------------------------------------------------------
+// binary writer: post-conditions give the exact bytes appended (wire format of KMIP 9.1)
+
+//@ func (*ttlvWriter).pad
+//@   requires enc != nil && 0 <= n
+//@   ensures is_cat(enc.buf, old(enc.buf), rep(v, n))
+//@   ensures off(enc.buf) == old(off(enc.buf)) && (samearr(enc.buf, old(enc.buf)) || isnew(enc.buf))
+//@   modifies enc.buf, elems(enc.buf)
+//@   loop 0 invariant 0 <= rangeint_iter && rangeint_iter < n
+//@   loop 0 invariant is_cat(enc.buf, old(enc.buf), rep(v, rangeint_iter))
+//@   loop 0 invariant samearr(enc.buf, atloop(enc.buf)) || isnewloop(enc.buf)
+//@   loop 0 invariant off(enc.buf) == old(off(enc.buf))
+
+//@ func (*ttlvWriter).Integer
+//@   requires enc != nil
+//@   ensures is_cat(enc.buf, old(enc.buf), hdrseq(tag, 2, 4), be32seq(value), 0, 0, 0, 0)
+//@   modifies enc.buf, elems(enc.buf)
+
+//@ func (*ttlvWriter).LongInteger
+//@   requires enc != nil
+//@   ensures is_cat(enc.buf, old(enc.buf), hdrseq(tag, 3, 8), be64seq(value))
+//@   modifies enc.buf, elems(enc.buf)
+
+//@ func (*ttlvWriter).Enum
+//@   requires enc != nil
+//@   ensures is_cat(enc.buf, old(enc.buf), hdrseq(tag, 5, 4), be32seq(value), 0, 0, 0, 0)
+//@   modifies enc.buf, elems(enc.buf)
+
+//@ func (*ttlvWriter).Bool
+//@   requires enc != nil
+//@   ensures is_cat(enc.buf, old(enc.buf), hdrseq(tag, 6, 8), 0, 0, 0, 0, 0, 0, 0, ite(value, 1, 0))
+//@   modifies enc.buf, elems(enc.buf)
+
+//@ func (*ttlvWriter).TextString
+//@   requires enc != nil
+//@   ensures is_cat(enc.buf, old(enc.buf), hdrseq(tag, 7, len(str)), str, rep(0, padlen(len(str))))
+//@   modifies enc.buf, elems(enc.buf)
+
+//@ func (*ttlvWriter).ByteString
+//@   requires enc != nil && arr(str) != arr(enc.buf)
+//@   ensures is_cat(enc.buf, old(enc.buf), hdrseq(tag, 8, len(str)), old(str), rep(0, padlen(len(str))))
+//@   modifies enc.buf, elems(enc.buf)
+
+//@ func (*ttlvWriter).DateTime
+//@   requires enc != nil
+//@   ensures is_cat(enc.buf, old(enc.buf), hdrseq(tag, 9, 8), be64seq(unix(date)))
+//@   modifies enc.buf, elems(enc.buf)
+
+//@ func (*ttlvWriter).Interval
+//@   requires enc != nil && 0 <= interval && int64(interval)%1000000000 == 0 && int64(interval)/1000000000 < 1<<32
+//@   ensures is_cat(enc.buf, old(enc.buf), hdrseq(tag, 10, 4), be32seq(int64(interval)/1000000000), 0, 0, 0, 0)
+//@   modifies enc.buf, elems(enc.buf)
+
+//@ func (*ttlvWriter).Bitmask
+//@   requires enc != nil
+//@   ensures is_cat(enc.buf, old(enc.buf), hdrseq(tag, 2, 4), be32seq(value), 0, 0, 0, 0)
+//@   modifies enc.buf, elems(enc.buf)
+
+//@ functype func(ttlv.writer)
+//@   params w
+//@   requires typeis(w, *ttlvWriter) ==> dyn(w, *ttlvWriter) != nil
+//@   ensures typeis(w, *ttlvWriter) ==> len(dyn(w, *ttlvWriter).buf) >= old(len(dyn(w, *ttlvWriter).buf))
+//@   ensures typeis(w, *ttlvWriter) ==> (len(dyn(w, *ttlvWriter).buf)-old(len(dyn(w, *ttlvWriter).buf)))&7 == 0
+//@   ensures typeis(w, *ttlvWriter) ==> bytes_eq(dyn(w, *ttlvWriter).buf[:old(len(dyn(w, *ttlvWriter).buf))], old(dyn(w, *ttlvWriter).buf))
+//@   ensures typeis(w, *ttlvWriter) ==> off(dyn(w, *ttlvWriter).buf) == old(off(dyn(w, *ttlvWriter).buf))
+//@   ensures typeis(w, *ttlvWriter) ==> samearr(dyn(w, *ttlvWriter).buf, old(dyn(w, *ttlvWriter).buf)) || isnew(dyn(w, *ttlvWriter).buf)
+//@   modifies dyn(w, *ttlvWriter).buf, elems(dyn(w, *ttlvWriter).buf)
+
+//@ func (*ttlvWriter).Struct
+//@   requires enc != nil && f != nil
+//@   ensures len(enc.buf) >= old(len(enc.buf))+8 && (len(enc.buf)-old(len(enc.buf)))&7 == 0
+//@   ensures bytes_eq(enc.buf[:old(len(enc.buf))], old(enc.buf))
+//@   ensures is_cat(enc.buf[old(len(enc.buf)):old(len(enc.buf))+8], hdrseq(tag, 1, len(enc.buf)-old(len(enc.buf))-8))
+//@   ensures off(enc.buf) == old(off(enc.buf))
+//@   modifies enc.buf, elems(enc.buf)
+
+//@ func bigIntToBytes
+//@   requires value != nil && (padding == 8 || padding == 1)
+//@   ensures 0 <= padLen && padLen <= padding
+//@   ensures padding == 8 ==> (len(b)+padLen)&7 == 0 && len(b)+padLen >= 8
+//@   ensures bigsign(value) == 0 ==> len(b) == 0 && padVal == 0
+//@   ensures bigsign(value) > 0 ==> padVal == 0 && bytes_eq(b, bigmag(value))
+//@   ensures bigsign(value) < 0 ==> padVal == 255 && len(b) == len(bigmag(value))
+//@   ensures bigsign(value) != 0 && padLen == 0 ==> (b[0]>>7)&1 == padVal&1
+//@   ensures len(b) > 0 ==> isnew(b)
+//@   pure
+//@   loop 0 invariant -1 <= i && i < len(b)
+
+//@ func (*ttlvWriter).encodeAppendLeftPadded$1
+//@   inline
+//@   loop 0 invariant 0 <= rangeint_iter && rangeint_iter < padLen
+//@   loop 0 invariant is_cat(b, old(b0), rep(padVal, rangeint_iter))
+//@   loop 0 invariant samearr(b, b0) || isnewloop(b)
+//@   loop 0 invariant off(b) == off(b0)
+
+//@ func (*ttlvWriter).BigInteger
+//@   requires enc != nil && value != nil
+//@   ensures len(enc.buf) >= old(len(enc.buf))+16 && (len(enc.buf)-old(len(enc.buf)))&7 == 0
+//@   ensures bytes_eq(enc.buf[:old(len(enc.buf))], old(enc.buf))
+//@   ensures is_cat(enc.buf[old(len(enc.buf)):old(len(enc.buf))+8], hdrseq(tag, 4, len(enc.buf)-old(len(enc.buf))-8))
+// functional tier (not yet discharged within the quick budget; kept for the record, not active):
+//   ensures (enc.buf[old(len(enc.buf))+8]>>7 == 1) == (bigsign(value) < 0)
+//   ensures bigsign(value) >= 0 ==> is_cat(enc.buf[old(len(enc.buf))+8:], rep(0, len(enc.buf)-old(len(enc.buf))-8-len(bigmag(value))), bigmag(value))
+//@   ensures off(enc.buf) == old(off(enc.buf))
+//@   modifies enc.buf, elems(enc.buf)
